@@ -349,6 +349,7 @@ type FuncSpec struct {
 	Line     int
 	Guarded  []string
 	Reveals  []*SExpr
+	SplitPaths  bool     // states are not merged at the joins of this function's if-statements (path-wise execution, bounded by the lane budget)
 	InlineCalls []string // callees executed from their bodies (with this function's unroll bound) although they have contracts
 	UnrollComplete bool
 	OverflowChecked bool // int/int64 + - *: absence of overflow is an obligation, then the exact result is used
@@ -378,7 +379,7 @@ type Contracts struct {
 	ConstBytes map[string][]byte // pkgpath.Name -> contents of a constant package-level byte slice
 }
 
-var clauseKw = regexp.MustCompile(`^(requires|ensures|modifies|loop|end|inline-calls|int-overflow-checked|inline|trusted|pure-effects|noalloc|unroll|reveal)\b`)
+var clauseKw = regexp.MustCompile(`^(split-paths|requires|ensures|modifies|loop|end|inline-calls|int-overflow-checked|inline|trusted|pure-effects|noalloc|unroll|reveal)\b`)
 var labelRe = regexp.MustCompile(`^([A-Za-z_][A-Za-z0-9_]*)\s*(\[[A-Z0-9, ]*\])?\s*:\s*(.*)$`)
 
 func parseTags(s string) []string {
@@ -611,6 +612,8 @@ func (cs *Contracts) parseFile(pkg, file, data string) {
 			cur.OverflowChecked = true
 		case s == "inline":
 			cur.Inline = true
+		case s == "split-paths":
+			cur.SplitPaths = true
 		case s == "trusted":
 			cur.Trusted = true
 		case s == "pure-effects":
